@@ -65,7 +65,9 @@ Fn make_function(Ctx& c, double& lo, double& hi)
 		{	// power law x^p - c on a bracket spanning decades
 			double p = s.coin() ? (double) s.range(1, 12) : s.uniform(0.2, 12.0);
 			double r = std::pow(10.0, s.uniform(-5, 5));
-			double u1 = s.uniform(0, 6), u2 = s.uniform(0, 6);
+			// brackets spanning many decades: usually up to 12, sometimes up to 24 (beyond the 16 digits of a double)
+			double umax = s.chance(0.25) ? 12.0 : 6.0;
+			double u1 = s.uniform(0, umax), u2 = s.uniform(0, umax);
 			lo		  = s.chance(0.15) ? 0.0 : r * std::pow(10.0, -u1);
 			hi		  = r * std::pow(10.0, u2);
 			if(u2 < 1e-3)
